@@ -140,7 +140,25 @@ def check_raises(ctx, clause="D-d"):
     discharged by constant propagation of the guarding argument or be a frozen exception."""
     obs = []
     reach = ctx.r.reach_from([q for q in POST_PARSING_ROOTS if q in ctx.p.funcs])
-    missing = [q for q in POST_PARSING_ROOTS if q not in ctx.p.funcs]
+    # helpers of the profiler may be renamed or folded into each other: the stage is then reached through profile_classes'
+    # other self-calls; the entry points of the shexer and of the serialisers are hard anchors
+    missing = [q for q in POST_PARSING_ROOTS if q not in ctx.p.funcs and ":ClassProfiler._" not in q]
+    soft = [q for q in POST_PARSING_ROOTS if q not in ctx.p.funcs and ":ClassProfiler._" in q]
+    if soft:
+        pc = ctx.p.funcs.get("shexer.core.profiling.class_profiler:ClassProfiler.profile_classes")
+        if pc is None:
+            missing += soft
+        else:
+            known = {q.split(".")[-1] for q in POST_PARSING_ROOTS}
+            extra = []
+            for n in walk_own(pc.node):
+                if isinstance(n, ast.Call) and isinstance(n.func, ast.Attribute) and isinstance(n.func.value, ast.Name) and n.func.value.id == "self":
+                    m = pc.cls.find_method(n.func.attr)
+                    # the reading pass (it parses the input and may reject it) is the only self-call that is not post-parsing
+                    if m is not None and n.func.attr not in known and "build_shape_of_instances" not in n.func.attr \
+                            and not n.func.attr.startswith("_launch"):
+                        extra.append(m.qual)
+            reach |= set(ctx.r.reach_from(extra)) if extra else set()
     if missing:
         from ..core import AnalysisError
         raise AnalysisError("post-parsing stage anchor vanished: " + ", ".join(missing))
